@@ -4155,6 +4155,12 @@ func (e *ExpressionEmitter) getExpressionStorageClass(handle ir.ExpressionHandle
 		if arg.Binding != nil {
 			return StorageClassInput, nil
 		}
+		// A pointer parameter points into the address space its type names.
+		if int(arg.Type) < len(e.backend.module.Types) {
+			if pt, ok := e.backend.module.Types[arg.Type].Inner.(ir.PointerType); ok {
+				return addressSpaceToStorageClass(pt.Space)
+			}
+		}
 		return StorageClassFunction, nil
 	case ir.ExprAccess:
 		return e.getExpressionStorageClass(k.Base)
